@@ -143,3 +143,43 @@ def run(F, R):
     R.floor("R21.4", "MetaInputValue registrations with is_secret = true (zoo declares 4 secret inputs)", n_true, 4)
     if n_true >= 4:
         R.ok("R21.4", "expansions:is_secret-registered", "-", "%d registrations" % n_true)
+
+    R.rule("R21.5", "schema lookups in the stringifier are keyed by the field *name*: no metadata lookup (field_by_name / fields.get) in stringify_exec_doc.rs takes "
+                    "Field::response_key() or the alias as key — an aliased field would not be found and nothing below it would be masked")
+    from common import lookups_keyed_by_response_key
+    sbodies = [b for b in F.bodies.values() if b.defp.startswith("async_graphql::registry::stringify_exec_doc::")]
+    lk = [c for b in sbodies for c in b.calls() if c.callee and re.search(r"registry::\{impl#\d+\}::field_by_name$|indexmap::map::\{impl#\d+\}::get$|btree::map::\{impl#\d+\}::get$", c.callee)]
+    R.floor("R21.5", "schema lookups in the stringifier", len(lk), 2)
+    bad = lookups_keyed_by_response_key(F, sbodies)
+    R.check(not bad, "R21.5", "stringify:lookups-keyed-by-field-name", sbodies[0].where() if sbodies else "-", "%d lookups, none keyed by alias / response key" % len(lk),
+            "a schema lookup in the stringifier is keyed by the response key (%s): for an aliased field the lookup misses, its secret arguments are printed verbatim and the "
+            "selection below it loses its parent type" % [c.where() for c in bad][:2])
+
+    R.rule("R21.6", "operation kind -> root type table: where stringify_exec_doc picks the root type for an operation, the Query arm reads query_type, the "
+                    "Mutation arm mutation_type and the Subscription arm subscription_type (a swapped arm resolves the document against the wrong root and masks nothing)")
+    WANT = {"Query": "query_type", "Mutation": "mutation_type", "Subscription": "subscription_type"}
+    n6 = 0
+    for b in sbodies:
+        for (sbb, place, adt, arms, other, vmap) in b.enum_switches(r"OperationType$"):
+            rest = b.reachable(other, avoid=[sbb]) if other is not None else set()
+            tg = {v: t for v, t in arms.items() if t is not None}
+            if len(tg) < 2:
+                continue
+            n6 += 1
+            for v, t in tg.items():
+                others = set()
+                for v2, t2 in tg.items():
+                    if v2 != v:
+                        others |= b.reachable(t2, avoid=[sbb])
+                region = b.reachable(t, avoid=[sbb]) - others - rest
+                region.add(t)
+                reads = set()
+                for x in region:
+                    txt = " ".join(str(st) for st in b.stmts(x)) + str(b.term(x))
+                    for f in WANT.values():
+                        if "." + f in txt:
+                            reads.add(f)
+                R.check(reads == {WANT[v]}, "R21.6", "root-type-of:" + v, "%s:%s" % (b.file, b.stmts(sbb)[-1][2] if b.stmts(sbb) else b.line), "reads %s" % sorted(reads),
+                        "the %s arm of the root-type selection reads %s instead of %s: %s documents are stringified against the wrong root type and their secret arguments "
+                        "are not recognised" % (v, sorted(reads) or "nothing", WANT[v], v.lower()))
+    R.floor("R21.6", "root-type selections in the stringifier", n6, 1)
